@@ -74,6 +74,44 @@ def run(ctx):
                 H.ok("seed=%d" % s, sample={"seed": s, "logged": [describe(t) for t in col.traces]})
             if found >= (3 if ctx["tier"] == "quick" else 30):
                 break
+    H.section("generator sampled at its start", "seeds such that the draw at a generator's start is zero and later draws are mixed; the body rebinds its parameter between yields: exactly one trace, with the argument types of the call and every yield",
+              "rate 2, first matching seeds")
+    found = 0
+    for s in range(200):
+        random.seed(s)
+        d = [random.randrange(2) for _ in range(3)]
+        if d[0] == 0 and d[1] != d[2]:
+            random.seed(s)
+            col = Collector()
+            with trace_calls(col, 0, only_progs, 2):
+                tracer = sys.getprofile()
+                list(progs.gen_rebind(7))
+            found += 1
+            good = len(col.traces) == 1 and spec_c.tyeq(col.traces[0].arg_types.get("a"), int) and spec_c.tyeq(col.traces[0].yield_type, int) and len(tracer.traces) == 0
+            if good:
+                H.ok("start-sampled-seed=%d" % s, sample={"seed": s, "draws": d})
+            else:
+                H.violation("monkeytype.tracing:CallTracer.handle_call", "start-sampled:%s" % ([describe(t) for t in col.traces],), "a generator sampled at its start is not described as without sampling",
+                            {"seed": s, "draws": d, "call": "gen_rebind(7)", "rate": 2}, [describe(t) for t in col.traces], "one trace: a: int, yields int")
+            if found >= (3 if ctx["tier"] == "quick" else 30):
+                break
+    H.section("nested tracing blocks", "a block with the rate unset inside a sampled block (and the reverse): each block's own rate decides", "outer 3 / inner None; outer None / inner 3; 600 calls")
+    for outer, inner in ((3, None), (None, 3), (100, 1)):
+        random.seed(seed + 3)
+        c_out, c_in = Collector(), Collector()
+        m = 600
+        with trace_calls(c_out, 0, only_progs, outer):
+            with trace_calls(c_in, 0, only_progs, inner):
+                for i in range(m):
+                    progs.ret_value(i)
+        p = 1.0 if inner in (None, 1) else 1.0 / inner
+        sigma = math.sqrt(m * p * (1 - p))
+        if abs(len(c_in.traces) - m * p) <= 5 * sigma + 1e-9 and len(c_out.traces) == 0:
+            H.ok("nested:%s/%s" % (outer, inner), sample={"outer": outer, "inner": inner, "inner_logged": len(c_in.traces)})
+        else:
+            H.violation("monkeytype.tracing:trace_calls", "nested:%s/%s:inner=%d:outer=%d" % (outer, inner, len(c_in.traces), len(c_out.traces)),
+                        "nested tracing blocks: the inner block's own sampling rate does not decide what it traces", {"outer_rate": outer, "inner_rate": inner, "calls": m},
+                        {"inner_logged": len(c_in.traces), "outer_logged": len(c_out.traces)}, {"inner_logged": "about %d" % int(m * p), "outer_logged": 0})
     return H.result()
 
 
